@@ -154,7 +154,14 @@ add("C18", "exploration",
     "x both tenalg backends: every array of the returned structure must have the input's floating dtype.",
     "Exempt: error lists, integer/bool outputs, leverage scores (float64 by documentation); real-valued roles of complex inputs may be float64.")
 
-READY = ["C01", "C02", "C03", "C04", "C05", "C06", "C07", "C08", "C09", "C10", "C11", "C12", "C14", "C15", "C16", "C17", "C18", "C19", "C20"]
+add("C13", "exploration",
+    "bounded exhaustive enumeration of every small integer design (one per distinct Gram matrix) x right-hand sides x penalties x cold/warm starts for each solver, with KKT residuals and an exact rational brute-force optimum over all 2^n supports",
+    "Every design U in {-1,0,1}^(m x n) (shapes up to 3x3; structured Toeplitz families up to n=8 in thorough) with cond(U'U)<=50, right-hand sides with active and inactive "
+    "constraints, 1-3 columns, 9 (l1, ridge) pairs, cold start and every warm start in {0,1}^n: hals_nnls, fista and active_set_nnls run to convergence must return x>=0 satisfying "
+    "the KKT conditions and attaining the exact optimum (Fractions, all supports); admm without constraints returns the least-squares solution.",
+    "Guard (counted): cond<=50. Tolerances 1e-6*scale (KKT), 1e-9*scale (objective). FISTA's epsilon floor counts as active.")
+
+READY = ["C01", "C02", "C03", "C04", "C05", "C06", "C07", "C08", "C09", "C10", "C11", "C12", "C13", "C14", "C15", "C16", "C17", "C18", "C19", "C20"]
 for _p in list(CHECKS):
     if _p not in READY:
         del CHECKS[_p]
